@@ -90,6 +90,13 @@ GUARDS = {
     # in the basis is accepted: the dirstate then holds an entry without a parent
     # (_validate fails, inventory and iter_changes disagree)
     "bzr_add_under_removed_parent": True,
+    # bzr (C10): with a path filter, InterDirStateTree does not report an unversioned path
+    # that is named by the filter when the same path is versioned in the basis (removed with
+    # --keep); without a filter, and in the generic implementation, it is reported
+    "bzr_filter_unversioned_at_removed": True,
+    # bzr (C10): InterCHKRevisionTree with include_unchanged reports (new path, new path)
+    # for an unchanged entry below a renamed directory; the generic code reports its old path
+    "chk_unchanged_old_path": True,
     # git: a commit whose changes name one path twice - as the source of a guessed copy /
     # rename and as a path that stays (modified file + new file with its old content), or a
     # file <-> symlink kind change (reported as delete + add) - records the right tree but
@@ -342,7 +349,14 @@ class MTree:
     def usable_filter(self, paths):
         """The part of a path filter that does not run into a guarded defect."""
         if self.flavour == "bzr" and "bzr_enotdir_filter" in self.guards:
-            return [s for s in paths if not any(self.dkind(a) == FILE for a in ancestors(s) if a)]
+            out = []
+            for s in paths:
+                if any(self.dkind(a) == FILE for a in ancestors(s) if a):
+                    continue
+                if self.dkind(s) == FILE and any(strictly_inside(s, q) for q in list(self.basis) + list(self.inv)):
+                    continue
+                out.append(s)
+            return out
         return list(paths)
 
     def guarded_state(self):
